@@ -984,6 +984,9 @@ class Calls(Interp):
             return V(lit, BYTES)
         r = tb(x)
         self.add_func_axiom(z3.Length(r) == length)
+        if length == 1:
+            # a single byte is exactly that byte
+            self.add_func_axiom(z3.Implies(z3.And(x >= 0, x < 256), r == z3.Unit(z3.Int2BV(x, 8))))
         self.add_func_axiom(z3.Implies(z3.And(x >= 0, x < 256 ** length), be(r) == x))
         self.assumptions_used.add('A-STRUCT')
         return V(r, BYTES)
